@@ -30,6 +30,10 @@ class C12(Harness):
         for feat in ('full', 'nd'):
             out.append({'feat': feat, 'mode': 'split_points', 'split': 'H', 'gen': 'sym1', 'n': 4 if q else 6})
             out.append({'feat': feat, 'mode': 'split_points', 'split': 'H', 'gen': 'symall', 'n': 3 if q else 4})
+            out.append({'feat': feat, 'mode': 'split_points', 'split': 'H', 'gen': 'hyph', 'nseg': 3 if q else 4, 'maxhy': 2})
+            if feat == 'full' or not q:
+                out.append({'feat': feat, 'mode': 'split_words', 'split': 'H', 'gen': 'hyph', 'nseg': 3, 'maxhy': 1,
+                            'seglen': 1 if q else 2, 'classes': (1,)})
             for sp in ('N', 'H', 'C1', 'C2', 'C3'):
                 out.append({'feat': feat, 'mode': 'split_words', 'split': sp, 'gen': 'sym1', 'n': 3 if q else 5})
             out.append({'feat': feat, 'mode': 'split_words', 'split': 'H', 'gen': 'symall', 'n': 3 if q else 4})
@@ -47,7 +51,20 @@ class C12(Harness):
 
     def gen_word(self, I, cfg):
         g = cfg['gen']
-        n = cfg['n']
+        n = cfg.get('n', 0)
+        if g == 'hyph':
+            # structured hyphenated word: 1..nseg segments of 1..2 symbolic characters joined by '-' (or '--')
+            chars = []
+            nseg = 1 + I.choose(cfg.get('nseg', 3), 'nseg')
+            for k in range(nseg):
+                if k:
+                    chars += [(45, 1)] * (1 + I.choose(cfg.get('maxhy', 1), 'hy'))
+                for j in range(1 + I.choose(cfg.get('seglen', 2), 'seglen')):
+                    cl = cfg.get('classes', (1,))
+                    kcl = cl[I.choose(len(cl), 'cls')]
+                    lo, hi = CLASS_RANGE[kcl]
+                    chars.append((I.sym_char('h%d_%d' % (k, j), lo, hi), kcl))
+            return Txt(chars)
         if g == 'sym1':
             t = gen_text(I, n, 'c', (1,), lenvar=True)
         elif g == 'symall':
